@@ -647,9 +647,16 @@ class MacroProgram(ElementProgram):
 
         self._interpolation.append(INTERPOLATION)
 
-        # Visit content body
+        # Visit content body; the text of an element that carries
+        # i18n:translate is part of that element's message and must
+        # not be translated on its own, too.
+        implicit = self.implicit_i18n_translate
+        translated = (I18N, 'translate') in ns
         for child in children:
+            if implicit and translated:
+                self.implicit_i18n_translate = child[0] != 'text'
             body.append(self.visit(*child))
+        self.implicit_i18n_translate = implicit
 
         self._switches.pop()
         self._interpolation.pop()
